@@ -131,6 +131,8 @@ def decodeIntegerValues (kind : Nat) (numEntries nc : Nat) : DecM (List Int) := 
   require (nc > 0)
   let numValues := numEntries * nc
   alloc "integer_decoder.portable_attribute" (4 * numValues)
+  -- `GetPortableAttributeData()` is nullptr for an attribute without entries: decoding fails
+  require (numEntries > 0)
   let compressed ← rdU8
   let raw : List Nat ←
     if compressed > 0 then lift (Leaf.decodeSymbols numValues nc)
@@ -305,11 +307,13 @@ def decodeSeqConnectivity : DecM (Nat × List (Nat × Nat × Nat)) := do
     else if numPoints < 2^16 then replicateM' (3 * numFaces) rdU16
     else if numPoints < 2^21 && !legacy then replicateM' (3 * numFaces) (varint 32)
     else replicateM' (3 * numFaces) rdU32
+  -- every face must refer to existing points (since the `fix:` commit for F6)
+  require (idx.all (· < numPoints))
   pure (numPoints, triples idx)
 
 structure DecodeResult where
   geometry : Geometry
-  metadata : String     -- canonical dump, "" when absent
+  metadata : Option GeometryMetadata
 
 /-- `Decoder::DecodeBufferToGeometry` for the sequential methods (encoder_method 0) -/
 def decodeGeometry (opts : DecOpts) : DecM DecodeResult := do
@@ -325,7 +329,7 @@ def decodeGeometry (opts : DecOpts) : DecM DecodeResult := do
   if h.major == maxMajor && h.minor > maxMinor then failWith .unknownVersion else
   setVersion (bsVersion h.major h.minor)
   let ver := bsVersion h.major h.minor
-  let md ← if ver ≥ bsVersion 1 3 && h.flags / 32768 % 2 == 1 then lift Leaf.decodeGeometryMetadata else pure ""
+  let md ← if ver ≥ bsVersion 1 3 && h.flags / 32768 % 2 == 1 then (do let g ← lift Leaf.decodeGeometryMetadata; pure (some g)) else pure none
   if h.encoderMethod != 0 then failWith (.unsupported (if isMesh then "edgebreaker" else "kd-tree")) else
   if isMesh then
     let (numPoints, faces) ← decodeSeqConnectivity
